@@ -248,14 +248,76 @@ def draw_source(rng, prob):
     return src
 
 
-def make_params(box, precisions=None):
+WORDS = ["width", "height", "depth", "angle", "radius", "length", "mass", "current", "offset", "gap", "turns", "bias"]
+NAME_SCHEMES = ["index", "index", "index", "x_1..", "reverse", "words", "shuffled"]
+
+
+def param_names(rng, d, scheme):
+    """d pairwise distinct parameter names.  The box of a parameter is given by its POSITION in the parameter list;
+    the names are labels.  Except for 'index' (x0, x1, ... the names of the first version of this check) the
+    lexicographic order of the names differs from the declaration order as soon as d >= 2 ('x_10' < 'x_2' needs d >= 10)."""
+    if scheme == "x_1..":
+        return ["x_%d" % (i + 1) for i in range(d)]
+    if scheme == "reverse":
+        return ["p%02d" % (d - i) for i in range(d)]
+    if scheme == "words":
+        return [WORDS[i % len(WORDS)] + ("" if i < len(WORDS) else str(i)) for i in range(d)]
+    if scheme == "shuffled":
+        names = ["x_%d" % (i + 1) for i in range(d)]
+        rng.shuffle(names)
+        return names
+    return ["x%d" % i for i in range(d)]
+
+
+def make_params(box, precisions=None, names=None):
     ps = []
     for i, (lb, ub) in enumerate(box):
-        p = {"name": "x%d" % i, "bounds": [lb, ub]}
+        p = {"name": names[i] if names else "x%d" % i, "bounds": [lb, ub]}
         if precisions and precisions[i]:
             p["precision"] = precisions[i]
         ps.append(p)
     return ps
+
+
+CHANGE_MODES = ["rebind", "item", "dict"]
+
+
+def change_bounds(params, new_box, mode, only=None):
+    """changes the declared box IN PLACE on the parameter list every operator / generator / algorithm was given:
+    rebind  parameters[i]['bounds'] = [lb, ub]           (a new list object in the same dict)
+    item    parameters[i]['bounds'][0] = lb; ...[1] = ub (the same list object)
+    dict    parameters[i] = {**parameters[i], 'bounds': [lb, ub]}   (a new dict in the same parameter list)"""
+    for i, (lb, ub) in enumerate(new_box):
+        if only is not None and i not in only:
+            continue
+        if mode == "rebind":
+            params[i]["bounds"] = [lb, ub]
+        elif mode == "item":
+            params[i]["bounds"][0] = lb
+            params[i]["bounds"][1] = ub
+        else:
+            q = dict(params[i])
+            q["bounds"] = [lb, ub]
+            params[i] = q
+
+
+def moved_interval(rng, lb, ub, how):
+    """a tightened / widened / shifted copy of [lb, ub]; None when that is not representable (huge, zero width)"""
+    w = ub - lb
+    if not (isinstance(w, int) or (math.isfinite(w) and abs(lb) < 1e150 and abs(ub) < 1e150)) or w <= 0:
+        return None
+    if how == "shift":
+        s = rng.choice([2, -2, 3])
+        nb = (lb + s * w, ub + s * w)
+    elif how == "tighten":
+        nb = (lb + w / 4, ub - w / 4)
+    elif how == "widen":
+        nb = (lb - w, ub + w)
+    else:
+        nb = (lb + w / 2, ub + w / 2)              # overlapping shift
+    if not (nb[0] < nb[1]) or nb[1] - nb[0] < 4e-12 * max(1.0, abs(nb[0]), abs(nb[1])):
+        return None
+    return nb
 
 
 class Shared:
@@ -263,11 +325,13 @@ class Shared:
     operations, as a Problem's parameter list is in artap.  After every call the list is compared with a deep
     copy taken at creation: nothing the property is about may modify the declared box."""
 
-    def __init__(self, rng, box, precisions=None):
+    def __init__(self, rng, box, precisions=None, names=None):
         import copy
         self.box = list(box)
         self.precisions = list(precisions) if precisions else [None] * len(box)
-        self.params = make_params(box, self.precisions)
+        self.names = list(names) if names else param_names(rng, len(box), rng.choice(NAME_SCHEMES))
+        self.params = make_params(box, self.precisions, self.names)
+        self.reboxed = 0
         for p in self.params:                      # keys the operators must ignore
             if rng.random() < 0.3:
                 p["initial_value"] = rng.choice([0.0, 1.0, -3.5, 1e6])
@@ -281,6 +345,14 @@ class Shared:
         if key not in self.objects:
             self.objects[key] = factory()
         return self.objects[key]
+
+    def rebox(self, new_box, mode):
+        """the user changes the declared box in place; the long-lived operator / generator objects stay"""
+        import copy
+        change_bounds(self.params, new_box, mode)
+        self.box = [tuple(b) for b in new_box]
+        self.snapshot = copy.deepcopy(self.params)
+        self.reboxed += 1
 
     def check(self, ctx, what, inp):
         self.calls += 1
@@ -319,7 +391,8 @@ def run(ctx):
             "skipped_nan_tape": 0, "skipped_pm_zero_width": 0, "long_parent": 0,
             "position_reset_upper": 0, "position_reset_lower": 0, "position_kept": 0,
             "complex_from_parent_in_rounding_slack": 0, "corpus_cases": 0,
-            "representation": {}, "calls_on_reused_objects": 0, "mixed_histories": 0}
+            "representation": {}, "calls_on_reused_objects": 0, "mixed_histories": 0,
+            "box_changes_in_place": {}, "calls_after_a_box_change": 0, "name_schemes_unsorted": 0}
     cases, expected, meta = [], [], []
 
     def in_declared_box(box, v):
@@ -379,7 +452,8 @@ def run(ctx):
         arg, rep_name = represent(rng, parent, plain)
         hist["representation"][rep_name] = hist["representation"].get(rep_name, 0) + 1
         inp = {"op": kind, "box": [list(b) for b in box], "parent": list(parent), "probability": prob, "parent_given_as": rep_name,
-               "call_number_on_this_operator_object": sh.calls + 1}
+               "call_number_on_this_operator_object": sh.calls + 1, "names": list(sh.names),
+               "box_changed_in_place_before_this_call": sh.reboxed}
         inp.update(extra)
         with Recorder(ops) as rec:
             rec.shim.source = src
@@ -403,6 +477,8 @@ def run(ctx):
         sh.check(ctx, "%s mutation" % kind, inp)
         if sh.calls > 1:
             hist["calls_on_reused_objects"] += 1
+        if sh.reboxed:
+            hist["calls_after_a_box_change"] += 1
         if result is None:
             hist["index_error_cases"] += 1
         else:
@@ -467,7 +543,8 @@ def run(ctx):
         a2, rep2 = represent(rng, p2, plain)
         hist["representation"][rep1] = hist["representation"].get(rep1, 0) + 1
         inp = {"op": "sbx", "box": [list(b) for b in box], "p1": list(p1), "p2": list(p2), "probability": prob, "distribution_index": di,
-               "parents_given_as": [rep1, rep2], "call_number_on_this_operator_object": sh.calls + 1}
+               "parents_given_as": [rep1, rep2], "call_number_on_this_operator_object": sh.calls + 1, "names": list(sh.names),
+               "box_changed_in_place_before_this_call": sh.reboxed}
         cx = sh.obj(("sbx", prob, di), lambda: ops.SimulatedBinaryCrossover(params, prob, di))
         with Recorder(ops) as rec:
             rec.shim.source = src
@@ -489,6 +566,8 @@ def run(ctx):
         sh.check(ctx, "SBX", inp)
         if sh.calls > 1:
             hist["calls_on_reused_objects"] += 1
+        if sh.reboxed:
+            hist["calls_after_a_box_change"] += 1
         oracle_child("sbx child 1", box, result[0], len(p1), inp)
         oracle_child("sbx child 2", box, result[1], len(p2), inp)
         if len(tape) == 1:
@@ -649,13 +728,29 @@ def run(ctx):
             if all(abs(float(b)) <= 1e290 for bb in box for b in bb):
                 gen_vector_case(box, sh.precisions, rng.choice([1, 2, 3]), lambda: rng.choice([0.0, one]) if rng.random() < 0.1 else rng.random(), shared=sh)
 
+    def history_rebox(sh):
+        """the declared box is changed IN PLACE between two operations of a history (tightened, widened, shifted away,
+        or replaced by an unrelated box): everything built on the parameter list before must follow the current box"""
+        new_box = []
+        for lb, ub in sh.box:
+            nb = moved_interval(rng, lb, ub, rng.choice(["shift", "shift", "tighten", "widen", "overlap"])) if rng.random() < 0.8 else None
+            new_box.append(nb if nb is not None else gen_box(rng))
+        mode = rng.choice(CHANGE_MODES)
+        sh.rebox(new_box, mode)
+        hist["box_changes_in_place"][mode] = hist["box_changes_in_place"].get(mode, 0) + 1
+
     def gen_stream():
         d = rng.choice([1, 2, 2, 3, 4])
         box = [gen_box(rng) for _ in range(d)]
         sh = Shared(rng, box, [rng.choice([None, None, None, 0.5, 1e-3]) for _ in range(d)])
+        if sh.names != sorted(sh.names):
+            hist["name_schemes_unsorted"] += 1
         opt = pick_options(d)
         kinds = rng.choice([["pm"], ["uniform"], ["nonuniform"], ["sbx"], ["pm", "sbx"], ["pm", "uniform", "nonuniform", "sbx", "gen"]])
-        for _ in range(rng.choice([3, 4, 6])):
+        changing = rng.random() < 0.4
+        for k in range(rng.choice([3, 4, 6])):
+            if changing and k and rng.random() < 0.5:
+                history_rebox(sh)
             history_op(sh, opt, rng.choice(kinds))
 
     # ================================================================= generators: gen_vector / RandomGenerator
@@ -680,8 +775,11 @@ def run(ctx):
             vectors = g.generate()
         finally:
             utils.random = real_utils_random
-        inp = {"generator": "RandomGenerator", "box": [list(b) for b in box], "precision": list(precisions)}
+        inp = {"generator": "RandomGenerator", "box": [list(b) for b in box], "precision": list(precisions), "names": list(sh.names),
+               "box_changed_in_place_before_this_call": sh.reboxed}
         sh.check(ctx, "RandomGenerator.generate", inp)
+        if sh.reboxed:
+            hist["calls_after_a_box_change"] += 1
         d = len(box)
         if len(vectors) != n_vectors or len(draws) != n_vectors * d:
             ctx.mismatches.append({"what": "RandomGenerator produced %d vectors with %d draws, expected %d and %d" % (len(vectors), len(draws), n_vectors, n_vectors * d),
@@ -802,7 +900,8 @@ def run(ctx):
              "clipped_in_runs": 0, "children_dropped_by_duplicate_filter": 0}
     run_level(ctx, rhist)
     dhist = {"designs": {}, "coordinates": 0}
-    doe_level(ctx, dhist, {"history_op": history_op, "pick_options": pick_options, "hist": hist})
+    doe_level(ctx, dhist, {"history_op": history_op, "pick_options": pick_options, "hist": hist, "history_rebox": history_rebox,
+                           "gen_vector_case": gen_vector_case})
     ctx.coq_compare("c08_op", HEADER, "op_case", "op_obs", "c08_op_run", "op_obs_eqb", cases, expected, meta,
                     shard=ctx.pick(300, 1500))
     ctx.coq_compare("c08_gen", HEADER, "gen_case", "nat", "c08_gen_run", "Nat.eqb", gcases, gexpected, gmeta,
@@ -831,6 +930,14 @@ RUN_BOXES = [
     [((-1e15, 1e15), None), ((0.0, 1.0), None)],
     [((1 / 3, 2 / 3), None), ((-0.1, 0.7), None)],
 ]
+
+
+# (when, how the box changes, how it is written, a second algorithm object on the same problem afterwards)
+HISTORIES_QUICK = [("before_first_run", "shift", "rebind", False), ("between_runs", "shift", "item", False),
+                   ("between_runs", "tighten", "dict", True), ("before_first_run", "widen", "item", False)]
+HISTORIES_MORE = [("between_runs", "widen", "rebind", True), ("before_first_run", "tighten", "dict", True),
+                  ("between_runs", "overlap", "rebind", False), ("before_first_run", "shift", "dict", False),
+                  ("between_runs", "shift", "dict", True), ("between_runs", "tighten", "item", False)]
 
 
 def index_of(objs, o):
@@ -1187,38 +1294,71 @@ def run_level(ctx, rhist, specs=None):
              "SMPSO": (asw.SMPSO, "ASmpso"), "PSOGA": (asw.PSOGA, "APsoga")}
     cases, expected, meta = [], [], []
 
-    def one_run(name, box, N, G, fail_p, pm_opt, correspond=True, seed=None, pc_opt=None):
+    def one_run(name, box, N, G, fail_p, pm_opt, correspond=True, seed=None, pc_opt=None, plan=None, names=None):
+        """One Problem and one long-lived algorithm object.  Without a plan: build, run.  With a plan (a HISTORY):
+        the declared box is changed IN PLACE on problem.parameters after the algorithm object was built -
+        plan['when'] = 'before_first_run': build, change, run;  'between_runs': build, run, change, run again on the same
+        object - and, with plan['second_algorithm'], a second algorithm object built on the same problem after the change
+        is run as well.  Every run is judged (oracle and model) on the box problem.parameters declares when it runs."""
         import copy
         cls, coq_algo = ALGOS[name]
         bounds = [b for b, _ in box]
         precs = [p for _, p in box]
-        params = make_params(bounds, precs)
-        params_before = copy.deepcopy(params)
+        params = make_params(bounds, precs, names)
         problem = LogProblem(parameters=params)
         problem.logger.setLevel(logging.CRITICAL)
-        alg = cls(problem)
-        alg.options['max_population_number'] = G
-        alg.options['max_population_size'] = N
-        alg.options['verbose_level'] = 0
-        if pm_opt is not None:
-            alg.options['prob_mutation'] = pm_opt
-            for attr in ("mutator", "uniform_mutator", "non_uniform_mutator"):
-                if getattr(alg, attr, None) is not None:
-                    getattr(alg, attr).probability = pm_opt
-        if pc_opt is not None:
-            if name in ("NSGAII", "EpsMOEA", "PSOGA"):
-                alg.options['prob_cross'] = pc_opt
-            if getattr(alg, "crossover", None) is not None:
-                alg.crossover.probability = pc_opt
         if seed is None:
             seed = rng.getrandbits(32)
+        base = {"algorithm": name, "box": [list(b) for b in bounds], "precision": precs, "population_size": N, "generations": G,
+                "failure_probability": fail_p, "prob_mutation": pm_opt, "prob_cross": pc_opt, "python_random_seed": seed,
+                "names": [p["name"] for p in params], "history": plan}
+
+        def build():
+            alg = cls(problem)
+            alg.options['max_population_number'] = G
+            alg.options['max_population_size'] = N
+            alg.options['verbose_level'] = 0
+            if pm_opt is not None:
+                alg.options['prob_mutation'] = pm_opt
+                for attr in ("mutator", "uniform_mutator", "non_uniform_mutator"):
+                    if getattr(alg, attr, None) is not None:
+                        getattr(alg, attr).probability = pm_opt
+            if pc_opt is not None:
+                if name in ("NSGAII", "EpsMOEA", "PSOGA"):
+                    alg.options['prob_cross'] = pc_opt
+                if getattr(alg, "crossover", None) is not None:
+                    alg.crossover.probability = pc_opt
+            return alg
+
+        alg = build()
+        if plan is None:
+            do_run(name, coq_algo, problem, alg, bounds, precs, N, G, fail_p, seed, dict(base, step="run"), correspond)
+            return
+        new_bounds = [tuple(b) for b in plan["new_box"]]
+        k = 0
+        if plan["when"] == "between_runs":
+            do_run(name, coq_algo, problem, alg, bounds, precs, N, G, fail_p, seed, dict(base, step="run 1 of the algorithm object (declared box not yet changed)"), correspond)
+            k = 1
+        change_bounds(problem.parameters, new_bounds, plan["mode"], plan.get("only"))
+        now = [tuple(p["bounds"]) for p in problem.parameters]
+        rhist["box_changes_in_place"] = rhist.get("box_changes_in_place", 0) + 1
+        do_run(name, coq_algo, problem, alg, now, precs, N, G, fail_p, seed + 7919 * k,
+               dict(base, step="run %d of the algorithm object built BEFORE the declared box was changed in place to %r" % (k + 1, [list(b) for b in now]),
+                    declared_box_at_this_run=[list(b) for b in now]), correspond)
+        if plan.get("second_algorithm"):
+            do_run(name, coq_algo, problem, build(), now, precs, N, G, fail_p, seed + 7919 * (k + 1),
+                   dict(base, step="run of a second algorithm object built on the same problem AFTER the change to %r" % ([list(b) for b in now],),
+                        declared_box_at_this_run=[list(b) for b in now]), correspond)
+
+    def do_run(name, coq_algo, problem, alg, bounds, precs, N, G, fail_p, seed, inp, correspond):
+        import copy
+        params_before = copy.deepcopy(problem.parameters)
         pyrandom.seed(seed)
         del ev[:]
         state["fail_p"] = fail_p
         state["fail_rng"] = pyrandom.Random(seed ^ 0x5bd1e995)
         state["streak"] = {}
-        inp = {"algorithm": name, "box": [list(b) for b in bounds], "precision": precs, "population_size": N, "generations": G,
-               "failure_probability": fail_p, "prob_mutation": pm_opt, "prob_cross": pc_opt, "python_random_seed": seed}
+        pm_opt = inp["prob_mutation"]
         crashed = None
         with Recorder(ops) as rec:
             install(rec)
@@ -1234,10 +1374,13 @@ def run_level(ctx, rhist, specs=None):
             ctx.mismatches.append({"what": "%s run modified the problem's parameter list: %r became %r" % (name, params_before, problem.parameters),
                                    "case": inp})
         rhist["runs"][name] = rhist["runs"].get(name, 0) + 1
+        if inp["history"] is not None:
+            rhist["runs_in_histories"] = rhist.get("runs_in_histories", 0) + 1
         evals = [e for e in events if e[0] == "eval"]
         rhist["evaluated_vectors"] += len(evals)
         rhist["failed_evaluations"] += sum(1 for e in evals if e[3])
         # ---- direct oracle: every vector the objective saw is a real vector of the right dimension inside the box
+        reported = 0
         for k, e in enumerate(evals):
             v = e[2]
             bad = None
@@ -1251,11 +1394,16 @@ def run_level(ctx, rhist, specs=None):
                         break
                     if float(v[i]) in (float(lb), float(ub)):
                         rhist["coordinates_on_a_bound"] += 1
-            if bad and len(ctx.oracle_failures) < 40:
-                ctx.oracle_failures.append({"what": "%s run: evaluated design #%d %s" % (name, k, bad), "input": inp, "observed": v,
-                                            "required": "every evaluated design inside the box (up to 1e-12 / half the declared precision)",
+            if bad:
+                rhist["designs_outside_the_declared_box"] = rhist.get("designs_outside_the_declared_box", 0) + 1
+                reported += 1
+            if bad and reported == 1 and len(ctx.oracle_failures) < 40:          # the first one of a run is the failing input
+                ctx.oracle_failures.append({"what": "%s run: evaluated design #%d %s%s" % (name, k, bad, "" if inp["history"] is None else " [%s]" % inp["step"]),
+                                            "input": inp, "observed": v,
+                                            "required": "every evaluated design inside the box problem.parameters declares when it is evaluated "
+                                                        "(up to 1e-12 / half the declared precision)",
                                             "match": {"kind": "out_of_box", "op": "run/" + name}})
-        ctx.count(("run", name, tuple(bounds), N, G, fail_p, pm_opt, seed), nontrivial=G > 1 or name != "NSGAII")
+        ctx.count(("run", name, tuple(bounds), N, G, fail_p, pm_opt, seed, inp["step"]), nontrivial=G > 1 or name != "NSGAII")
         if crashed is not None:
             if isinstance(crashed, TypeError) and "complex" in str(crashed):
                 rhist["runs_aborted_by_complex_power"] += 1        # pow(negative, fraction) inside SBX / PM: a crash, not an out-of-box design
@@ -1286,13 +1434,14 @@ def run_level(ctx, rhist, specs=None):
             ll(mi["arch0"], nl), ll(mi["scripts"], enc_script)))
         expected.append("(Some (%s, %s, %s))" % (enc_vecs(obs[0]), enc_vecs(obs[1]), enc_vecs(obs[2])))
         meta.append(dict(inp, evaluated=len(obs[0]), final_population=len(obs[1])))
-        if name == "PSOGA" and N == 2 and G == 1 and not any(s.get("name") == "run" for s in ctx.samples):
+        if name == "PSOGA" and N == 2 and G == 1 and inp["history"] is None and not any(s.get("name") == "run" for s in ctx.samples):
             ctx.samples.append({"name": "run", "input": inp, "evaluated_vectors": obs[0]})
 
     if specs is not None:          # replay of stored runs: direct oracle only
         for sp in specs:
             one_run(sp["algorithm"], [(tuple(b), p) for b, p in zip(sp["box"], sp["precision"])], sp["population_size"], sp["generations"],
-                    sp["failure_probability"], sp["prob_mutation"], correspond=False, seed=sp["python_random_seed"], pc_opt=sp.get("prob_cross"))
+                    sp["failure_probability"], sp["prob_mutation"], correspond=False, seed=sp["python_random_seed"], pc_opt=sp.get("prob_cross"),
+                    plan=sp.get("history"), names=sp.get("names"))
         return
     sizes = ctx.pick([2, 3, 5, 8], [2, 3, 5, 8, 12, 20])
     gens = ctx.pick([1, 2, 4], [1, 2, 4, 7])
@@ -1305,8 +1454,24 @@ def run_level(ctx, rhist, specs=None):
                     fail_p = rng.choice([0.0, 0.0, 0.0, 0.15, 0.4])
                     pm_opt = rng.choice([None, None, 0.5, 1.0])
                     pc_opt = rng.choice([None, None, 0.5, 0.0]) if pm_opt else rng.choice([None, None, 0.5])
-                    one_run(name, box, N, G, fail_p, pm_opt, pc_opt=pc_opt)
+                    one_run(name, box, N, G, fail_p, pm_opt, pc_opt=pc_opt,
+                            names=param_names(rng, len(box), rng.choice(NAME_SCHEMES)))
         one_run(name, RUN_BOXES[0], 1, 2, 0.0, None, correspond=False)       # population of one: direct oracle only
+        # ---- histories: the declared box is changed in place after the algorithm object was built
+        for when, how, mode, second in ctx.pick(HISTORIES_QUICK, HISTORIES_QUICK * 3 + HISTORIES_MORE * 2):
+            for _ in range(20):
+                box = rng.choice(RUN_BOXES)
+                new_box, only = [], []
+                for i, ((lb, ub), _) in enumerate(box):
+                    nb = moved_interval(rng, lb, ub, how) if (rng.random() < 0.75 or i == 0) else None
+                    if nb is not None:
+                        only.append(i)
+                    new_box.append(list(nb) if nb is not None else [lb, ub])
+                if only:
+                    break
+            plan = {"when": when, "change": how, "mode": mode, "new_box": new_box, "only": only, "second_algorithm": second}
+            one_run(name, box, rng.choice([2, 3, 5]), rng.choice([2, 3]), rng.choice([0.0, 0.0, 0.15]), rng.choice([None, 0.5, 1.0]), plan=plan,
+                    names=param_names(rng, len(box), rng.choice(NAME_SCHEMES)))
     ctx.coq_compare("c08_run", HEADER, "run_case", "run_obs", "c08_run_run", "run_obs_eqb", cases, expected, meta,
                     shard=ctx.pick(8, 16))
 
@@ -1352,6 +1517,8 @@ def doe_level(ctx, dhist, opf):
                     break
         return ok
 
+    LEVEL_COQ_CAP = 2500          # designs * parameters above which a level design is judged by the direct oracle only
+
     def level_case(kind, box, shared=None):
         sh = shared or Shared(rng, box)
         params = sh.params
@@ -1365,8 +1532,8 @@ def doe_level(ctx, dhist, opf):
             g = sh.obj(("pb",), lambda: ops.PlackettBurmanGenerator(params))
         else:
             g = sh.obj(("bb",), lambda: ops.BoxBehnkenGenerator(params))
-        inp = {"generator": type(g).__name__, "center": kind == "ff3", "box": [list(b) for b in box],
-               "call_number_on_this_parameter_list": sh.calls + 1}
+        inp = {"generator": type(g).__name__, "center": kind == "ff3", "box": [list(b) for b in box], "names": list(sh.names),
+               "call_number_on_this_parameter_list": sh.calls + 1, "box_changed_in_place_before_this_call": sh.reboxed}
         cap.clear()
         try:
             rows = g.generate()
@@ -1383,6 +1550,9 @@ def doe_level(ctx, dhist, opf):
             return
         if any(bad_number(v) for row in rows for v in row):
             return
+        if len(rows) * len(box) > LEVEL_COQ_CAP:
+            dhist["level_designs_judged_by_the_oracle_only"] = dhist.get("level_designs_judged_by_the_oracle_only", 0) + 1
+            return
         lcases.append("{| l_three := %s; l_params := %s; l_x := %s |}" % (bl(kind in ("ff3", "bb")), enc_params(box),
                                                                           ll(cap["x"], lambda r: ll(r, nl))))
         lexp.append("(Some %s)" % enc_vecs([[float(v) for v in row] for row in rows]))
@@ -1395,7 +1565,8 @@ def doe_level(ctx, dhist, opf):
         g.init(number)
         seed = rng.getrandbits(31)
         doe.lhs = lambda n, samples=None, **kw: o_lhs(n, samples=samples, random_state=seed)
-        inp = {"generator": type(g).__name__, "number": number, "box": [list(b) for b in box], "numpy_seed": seed}
+        inp = {"generator": type(g).__name__, "number": number, "box": [list(b) for b in box], "numpy_seed": seed, "names": list(sh.names),
+               "box_changed_in_place_before_this_call": sh.reboxed}
         cap.clear()
         try:
             rows = g.generate()
@@ -1423,7 +1594,8 @@ def doe_level(ctx, dhist, opf):
         params = sh.params
         g = sh.obj(("grid",), lambda: ops.UniformGenerator(params))
         g.init(number)
-        inp = {"generator": "UniformGenerator", "number": number, "box": [list(b) for b in box]}
+        inp = {"generator": "UniformGenerator", "number": number, "box": [list(b) for b in box], "names": list(sh.names),
+               "box_changed_in_place_before_this_call": sh.reboxed}
         try:
             rows = g.generate()
         except Exception as e:
@@ -1438,7 +1610,12 @@ def doe_level(ctx, dhist, opf):
         if len(rows) != number ** d:
             ctx.mismatches.append({"what": "UniformGenerator returned %d designs, expected %d" % (len(rows), number ** d), "case": inp})
             return
-        for r, row in enumerate(rows):
+        if len(rows) * d > LEVEL_COQ_CAP:
+            rows = rows[:8] + rows[-8:]          # a large grid: the first and last designs go to the model, all went to the oracle
+            picked = list(range(8)) + list(range(number ** d - 8, number ** d))
+        else:
+            picked = list(range(len(rows)))
+        for r, row in zip(picked, rows):
             idx = [(r // number ** (d - 1 - j)) % number for j in range(d)]
             scases.append("{| d_grid := Some %s; d_params := %s; d_w := []; d_idx := %s; d_impl := %s; d_tol := %s |}" % (
                 nl(number), ll(box, lambda b: pl(ql(b[0]), ql(b[1]))), ll(idx, nl), ll([float(v) for v in row], ql),
@@ -1461,7 +1638,13 @@ def doe_level(ctx, dhist, opf):
         opt = opf["pick_options"](d)
         kinds = ["ff2", "ff3", "pb", "lhs", "halton", "grid", "pm", "uniform", "nonuniform", "sbx", "gen"] + (["bb", "bb"] if d >= 3 else [])
         opf["hist"]["mixed_histories"] += 1
-        for _ in range(rng.choice([3, 5, 7])):
+        if sh.names != sorted(sh.names):
+            opf["hist"]["name_schemes_unsorted"] += 1
+        changing = rng.random() < 0.4
+        for step in range(rng.choice([3, 5, 7])):
+            if changing and step and rng.random() < 0.4:
+                opf["history_rebox"](sh)
+            box = sh.box
             k = rng.choice(kinds)
             if k in ("ff2", "ff3", "pb", "bb"):
                 level_case(k, box, shared=sh)
@@ -1472,9 +1655,46 @@ def doe_level(ctx, dhist, opf):
             else:
                 opf["history_op"](sh, opt, k)
 
+    def own_boxes(d):
+        """every parameter has its OWN box, disjoint from all the others: [10k, 10k+1] in a random assignment of k (some
+        mirrored to the negative side); a design whose columns are permuted, or scaled with another parameter's bounds, leaves it"""
+        ks = list(range(1, d + 1))
+        rng.shuffle(ks)
+        return [((10.0 * k, 10.0 * k + 1.0) if rng.random() < 0.7 else (-10.0 * k - 1.0, -10.0 * k)) for k in ks]
+
+    def named_stream(d, scheme, kinds):
+        """all generators on one parameter list whose NAMES are not in declaration order (x_1..x_12: 'x_10' < 'x_2';
+        reverse alphabetical; words; shuffled) - the box of a parameter is given by its position, not by its name"""
+        box = own_boxes(d)
+        names = param_names(rng, d, scheme)
+        sh = Shared(rng, box, None, names=names)
+        key = "named_parameter_lists"
+        dhist[key] = dhist.get(key, 0) + 1
+        if names != sorted(names):
+            opf["hist"]["name_schemes_unsorted"] += 1
+        for k in kinds:
+            if k in ("ff2", "ff3", "pb", "bb"):
+                level_case(k, sh.box, shared=sh)
+            elif k in ("lhs", "halton"):
+                scaled_case(k, sh.box, rng.choice([2, 3, 5]), shared=sh)
+            elif k == "grid":
+                grid_case(sh.box, 2, shared=sh)
+            elif k == "gen":
+                opf["gen_vector_case"](sh.box, sh.precisions, 2, rng.random, shared=sh)
+            elif k == "rebox":
+                sh.rebox(own_boxes(d), rng.choice(CHANGE_MODES))
+
     doe.construct_df = cdf
     doe.construct_df_from_random_matrix = crand
     try:
+        big = ["pb", "halton", "lhs", "gen", "bb", "ff2", "grid"]
+        for d, scheme in ctx.pick([(12, "x_1.."), (10, "shuffled")], [(10, "x_1.."), (11, "x_1.."), (12, "x_1.."), (12, "shuffled"), (10, "shuffled"),
+                                                                      (11, "reverse"), (12, "words"), (10, "x_1.."), (12, "shuffled")]):
+            named_stream(d, scheme, big if d <= 10 else [k for k in big if k not in ("ff2", "grid")])
+        small = ["ff2", "ff3", "pb", "bb", "lhs", "halton", "grid", "gen", "rebox", "halton", "lhs", "ff3", "pb", "grid", "gen", "bb"]
+        for d, scheme in ctx.pick([(3, "reverse"), (2, "words"), (4, "shuffled")], [(3, "reverse"), (2, "words"), (4, "shuffled"), (5, "reverse"),
+                                                                                    (3, "words"), (3, "shuffled"), (6, "shuffled"), (2, "reverse")]):
+            named_stream(d, scheme, [k for k in small if d >= 3 or k != "bb"])
         for _ in range(ctx.pick(40, 400)):
             mixed_history()
         level_case("ff3", [(0.0, 1.0), (-5, 5)])
